@@ -9,6 +9,12 @@
 //! header-field corruption, into every reader including `Error::skip_payload`
 //! and the client's first-reply readers. The reference is a small wire
 //! grammar written here (header, fixed sizes, the two variable layouts).
+//! (c) `client.fields`: the header fields that recur within one reply
+//! (session in Cache Response / Serial Notify / End of Data; version in every
+//! PDU) chosen independently, on the reset and serial paths and over two steps
+//! of one client: a step that succeeds leaves the End of Data's state.
+//! (d) `fault.truncation.scale`: variable parts crossing every power of two up
+//! to 2^17 (2^20), cut around every power-of-two / stride boundary and the end.
 
 use std::cell::RefCell;
 use std::collections::{BTreeMap, BTreeSet, HashSet};
@@ -1388,6 +1394,280 @@ fn judge_client_variants(acc: &mut Acc, seed: &ClientSeed, stream: &[u8], script
     acc.evals += runs;
     acc.class(if !ok { "violation" } else if base.res.is_ok() { "variants-agree:step-ok" } else { "variants-agree:step-err" });
 }
+
+//------------ header fields that recur within one reply -------------------------
+//
+// The session occurs in the Cache Response, in a Serial Notify and in the End
+// of Data; the version in every PDU. The library's own server writes all of
+// them from one value, so a transcript produced by it never tells a client
+// that takes a field from the wrong PDU from one that takes it from the right
+// one. Here each occurrence is a dimension of its own (equal / different).
+
+/// Session ids: FA is the one the client's state carries; FB, FC are two others.
+const FA: u16 = 0x4321; const FB: u16 = 0x1234; const FC: u16 = 0x2143;
+/// The serial of the client's state on the serial paths.
+const FN: u32 = 100;
+
+fn seen_items(vals: &[Val]) -> Vec<(Action, Payload)> {
+    vals.iter().map(|x| {
+        let (a, p) = expected_payload(x).unwrap();
+        // a withdrawn ASPA reaches the target by customer only
+        match (a, p) { (Action::Withdraw, Payload::Aspa(x)) => (a, Payload::Aspa(x.withdraw())), other => other }
+    }).collect()
+}
+
+/// One payload PDU of every type the version carries; `round` 1: other items, some withdrawn.
+fn field_items(v: u8, round: u8) -> Vec<Val> {
+    let mut seq = [0u8; 20]; for (i, b) in seq.iter_mut().enumerate() { *b = 0xE0 | i as u8 }
+    let fl: [u8; 4] = if round == 0 { [1, 1, 1, 1] } else { [0, 1, 1, 0] };
+    let r = round as u32;
+    let mut o = vec![
+        Val::V4 { v, flags: fl[0], plen: 8, mlen: 24, addr: 0x0A00_0000, asn: 65000 + r },
+        Val::V6 { v, flags: fl[1], plen: 32, mlen: 128, addr: 0x2001_0db8u128 << 96, asn: 0xFFFF_FFFF - r },
+    ];
+    if v >= 1 { o.push(Val::Key { v, flags: fl[2], ski: seq, asn: 65002 + r, info: vec![9, 8, 7, round] }) }
+    if v >= 2 { o.push(Val::Aspa { v, flags: fl[3], customer: 65003, providers: vec![65004, 65005 + r] }) }
+    o
+}
+
+fn field_eod(v: u8, session: u16, serial: u32, round: u8) -> Val {
+    let r = 10 * round as u32;
+    if v == 0 { Val::EodV0 { session, serial } } else { Val::EodV1 { v, session, serial, refresh: 7 + r, retry: 8 + r, expire: 9 + r } }
+}
+
+/// The timing a target sees after an end of data of version `v` (version 0 carries none: the client's default stays).
+fn field_timing(v: u8, round: u8) -> (u32, u32, u32) { let r = 10 * round as u32; if v == 0 { (3600, 600, 7200) } else { (7 + r, 8 + r, 9 + r) } }
+
+/// One reply whose recurring header fields are chosen independently.
+#[derive(Clone, Copy, Debug)]
+struct FCase {
+    /// 0: reset query (no state); 1: serial query (state (FA, FN)); 2: serial query answered by Cache Reset, then the reply to the reset query.
+    path: u8,
+    init_v: u8,
+    /// Version of the Cache Response (and Cache Reset), of the payload PDUs, of the End of Data.
+    vc: u8, vp: u8, ve: u8,
+    /// Session of the Cache Response, session and serial of the End of Data.
+    sc: u16, se: u16, ne: u32,
+}
+
+impl FCase {
+    fn state(&self) -> Option<(u16, u32)> { if self.path == 0 { None } else { Some((FA, FN)) } }
+    fn items(&self) -> Vec<Val> { field_items(self.vp, 0) }
+    fn reply(&self) -> Vec<Val> {
+        let mut o = Vec::new();
+        if self.path == 2 { o.push(Val::CacheReset { v: self.vc }) }
+        o.push(Val::CacheResponse { v: self.vc, session: self.sc });
+        o.extend(self.items());
+        o.push(field_eod(self.ve, self.se, self.ne, 0));
+        o
+    }
+    /// All occurrences agree with each other and with what the client asked: the reply a real server gives.
+    fn uniform(&self) -> bool {
+        self.vc == self.init_v && self.vp == self.init_v && self.ve == self.init_v && self.sc == self.se && (self.path != 1 || self.sc == FA)
+    }
+}
+
+fn fmt_state(s: Option<(u16, u32)>) -> String { match s { Some((s, n)) => format!("(session {s:#06x}, serial {n})"), None => "none".into() } }
+
+fn render_reply(reply: &[Val]) -> String { reply.iter().map(|v| v.render()).collect::<Vec<_>>().join("+") }
+
+/// One step of the real client over a reply with independently chosen header
+/// fields: if the step succeeds the client's state is the one the End of Data
+/// carries and the target has the items as written; a reply whose versions
+/// disagree is an error.
+fn judge_client_fields(acc: &mut Acc, c: &FCase, reply: &[Val], stream: &[u8], script: &[Ev], closed: bool) {
+    let wit = || format!("client.fields path={} init_v={} state={} reply={} bytes={} sched={}", ["reset", "serial", "serial-then-reset"][c.path as usize], c.init_v, fmt_state(c.state()), render_reply(reply), show(stream), render_script(script));
+    if skip_for_replay(script, &wit) { return }
+    let run = exec_client(c.init_v, c.state(), stream, script);
+    acc.evals += 1;
+    let mut ok = run_level(acc, "client", &wit, run.pending_at_quiescence, &run.end, run.livelock, run.spin, closed);
+    let g = client_grammar(c.path != 0, stream);
+    match (&run.res, g) {
+        (Ok(()), CExp::Malformed(why)) => {
+            acc.fail("C07.client.error_expected", &wit, format!("step succeeds although the reply is broken ({why}); client state {}", fmt_state(run.state)));
+            acc.class("violation");
+        }
+        (Ok(()), _) => {
+            let want = vec![(c.path != 1, seen_items(&c.items()), field_timing(c.ve, 0))];
+            if run.state != Some((c.se, c.ne)) {
+                acc.fail("C07.client.fields.state", &wit, format!("the step succeeded and Client::state() is {}; the End of Data PDU it read carries session {:#06x} serial {} (Cache Response: session {:#06x}; state before: {})", fmt_state(run.state), c.se, c.ne, c.sc, fmt_state(c.state()))); ok = false;
+            }
+            if run.applied != want { acc.fail("C07.client.fields.items", &wit, format!("target received {}, the reply carried {}", trunc(&format!("{:?}", run.applied), 300), trunc(&format!("{want:?}"), 300))); ok = false }
+            if run.consumed != stream.len() as u64 { acc.fail("C07.client.fields.consumed", &wit, format!("{} of {} octets consumed", run.consumed, stream.len())); ok = false }
+            acc.class(if !ok { "violation" } else if c.uniform() { "step-ok:uniform-reply" } else { "step-ok:state-is-the-end-of-data's" });
+        }
+        (Err(e), g) => {
+            if c.uniform() { acc.fail("C07.client.roundtrip", &wit, format!("a well-formed reply is rejected: {e}")); ok = false }
+            acc.class(if !ok { "violation" } else if matches!(g, CExp::Malformed(_)) { "step-err:versions-disagree" } else { "step-err:unjudged(session or version other than asked for)" });
+        }
+    }
+}
+
+/// Observations of several steps of ONE client.
+struct StepsRun {
+    /// Result of each step that was started and the client's state after it.
+    steps: Vec<(Result<(), String>, Option<(u16, u32)>)>,
+    applied: Vec<(bool, Vec<(Action, Payload)>, (u32, u32, u32))>,
+    sent: Vec<u8>, consumed: u64, pending_at_quiescence: bool, end: End, livelock: bool, spin: bool,
+}
+
+/// `n` calls of `Client::step` on one client (it stops at the first error).
+fn exec_client_steps(init_v: u8, state: Option<(u16, u32)>, stream: &[u8], script: &[Ev], n: usize) -> StepsRun {
+    SCHED.with(|s| s.borrow().run(async {
+        let (sock, ctl) = sock_pair();
+        let h = tokio::spawn(async move {
+            let mut client = Client::with_initial_version(init_v, sock, Tgt::default(), state.map(|(s, n)| st(s, n)));
+            let mut steps = Vec::new();
+            for _ in 0..n {
+                let r = client.step().await.map_err(|e| err_text(&e));
+                let stop = r.is_err();
+                steps.push((r, client.state().map(|s| (s.session(), s.serial().0))));
+                if stop { break }
+            }
+            (steps, std::mem::take(&mut client.target_mut().applied))
+        });
+        let tr = play(&ctl, stream, None, script).await;
+        let q = quiesce(&[&ctl]).await;
+        let pending = !h.is_finished();
+        let (end, steps, applied) = match join_within(h, HORIZON).await {
+            Joined::Done((steps, applied)) => (End::Done, steps, applied),
+            Joined::Panicked(m) => (End::Panicked(m), vec![], vec![]),
+            Joined::Stuck => (End::Stuck, vec![], vec![]),
+        };
+        StepsRun { steps, applied, sent: ctl.output(), consumed: ctl.consumed(), pending_at_quiescence: pending, end, livelock: ctl.livelock(), spin: tr.spin || q.spin }
+    }))
+}
+
+/// Two updates of one client: a reset reply, a Serial Notify, a serial reply,
+/// all of one version, the sessions (and the serials) of the five PDUs that
+/// carry one chosen independently.
+#[derive(Clone, Copy, Debug)]
+struct F2Case { v: u8, sc1: u16, sn: u16, nn: u32, sc2: u16, se2: u16, ne2: u32 }
+
+impl F2Case {
+    fn reply(&self) -> Vec<Val> {
+        let mut o = vec![Val::CacheResponse { v: self.v, session: self.sc1 }];
+        o.extend(field_items(self.v, 0)); o.push(field_eod(self.v, FA, FN, 0));
+        o.push(Val::SerialNotify { v: self.v, session: self.sn, serial: self.nn });
+        o.push(Val::CacheResponse { v: self.v, session: self.sc2 });
+        o.extend(field_items(self.v, 1)); o.push(field_eod(self.v, self.se2, self.ne2, 1));
+        o
+    }
+    fn uniform(&self) -> bool { self.sc1 == FA && self.sn == FA && self.sc2 == FA && self.se2 == FA }
+}
+
+fn judge_client_fields2(acc: &mut Acc, c: &F2Case, reply: &[Val], stream: &[u8], script: &[Ev], closed: bool) {
+    let wit = || format!("client.fields two steps of one client init_v={} reply={} bytes={} sched={}", c.v, render_reply(reply), show(stream), render_script(script));
+    if skip_for_replay(script, &wit) { return }
+    let run = exec_client_steps(c.v, None, stream, script, 2);
+    acc.evals += 1;
+    let mut ok = run_level(acc, "client", &wit, run.pending_at_quiescence, &run.end, run.livelock, run.spin, closed);
+    if !ok { acc.class("violation"); return }
+    let t = |round: u8| if c.v == 0 { field_timing(0, 0) } else { field_timing(c.v, round) };
+    let want1 = (true, seen_items(&field_items(c.v, 0)), t(0));
+    let want2 = (false, seen_items(&field_items(c.v, 1)), t(1));
+    // what the client must have written: a reset query, then a serial query carrying the state of the first End of Data
+    let q1 = vec![c.v, 2, 0, 0, 0, 0, 0, 8];
+    let q2 = { let mut q = vec![c.v, 1, (FA >> 8) as u8, FA as u8, 0, 0, 0, 12]; q.extend_from_slice(&FN.to_be_bytes()); q };
+    match run.steps.as_slice() {
+        [(Ok(()), s1), rest @ ..] => {
+            if *s1 != Some((FA, FN)) { acc.fail("C07.client.fields.steps.state", &wit, format!("after the first step Client::state() is {}; the End of Data carries session {FA:#06x} serial {FN} (Cache Response: {:#06x})", fmt_state(*s1), c.sc1)); ok = false }
+            if run.applied.first() != Some(&want1) { acc.fail("C07.client.fields.steps.items", &wit, format!("first update: target received {}", trunc(&format!("{:?}", run.applied.first()), 300))); ok = false }
+            // which query follows is judged only where nothing the client has seen contradicts its state
+            // (a client may answer a foreign session in the first reply or in the notify by starting over)
+            let settled = c.sc1 == FA && c.sn == FA;
+            if ok && settled && run.sent != [&q1[..], &q2[..]].concat() {
+                acc.fail("C07.client.fields.steps.next_query", &wit, format!("the client wrote {}; a reset query and a serial query for the state of the first End of Data are {}", show(&run.sent), show(&[&q1[..], &q2[..]].concat()))); ok = false
+            }
+            match rest {
+                [(Ok(()), s2)] => {
+                    if *s2 != Some((c.se2, c.ne2)) {
+                        acc.fail("C07.client.fields.steps.state", &wit, format!("the second step succeeded and Client::state() is {}; the End of Data PDU it read carries session {:#06x} serial {} (Cache Response: session {:#06x}; Serial Notify: {:#06x}/{}; state before: ({FA:#06x}, {FN}))", fmt_state(*s2), c.se2, c.ne2, c.sc2, c.sn, c.nn)); ok = false;
+                    }
+                    if run.applied.len() != 2 || run.applied[1].1 != want2.1 || run.applied[1].2 != want2.2 || (settled && run.applied[1].0) { acc.fail("C07.client.fields.steps.items", &wit, format!("second update: target received {}", trunc(&format!("{:?}", run.applied.get(1..)), 300))); ok = false }
+                    if run.consumed != stream.len() as u64 { acc.fail("C07.client.fields.steps.consumed", &wit, format!("{} of {} octets consumed", run.consumed, stream.len())); ok = false }
+                    acc.class(if !ok { "violation" } else if c.uniform() { "steps-ok:uniform-replies" } else { "steps-ok:state-is-the-last-end-of-data's" });
+                }
+                [(Err(e), _)] => {
+                    if c.uniform() { acc.fail("C07.client.roundtrip", &wit, format!("the second of two well-formed replies is rejected: {e}")); ok = false }
+                    acc.class(if ok { "second-step-err:unjudged(sessions differ)" } else { "violation" });
+                }
+                _ => { acc.fail("C07.client.no_hang", &wit, "the second step was not run".into()); acc.class("violation") }
+            }
+        }
+        [(Err(e), _), ..] => {
+            if c.sc1 == FA { acc.fail("C07.client.roundtrip", &wit, format!("a well-formed reset reply is rejected: {e}")); ok = false }
+            acc.class(if ok { "first-step-err:unjudged(sessions differ)" } else { "violation" });
+        }
+        [] => { acc.fail("C07.client.no_hang", &wit, "no step completed".into()); acc.class("violation") }
+    }
+}
+
+
+//------------ scale x truncation: long variable parts cut near every boundary ---
+
+/// k-1, k, k+1 for k = 2^lo ..= 2^hi.
+fn around_powers(lo: u32, hi: u32) -> Vec<usize> { (lo..=hi).flat_map(|p| { let k = 1usize << p; [k - 1, k, k + 1] }).collect() }
+
+/// Seeds whose variable part crosses every power of two: router key info and
+/// both fields of an error report up to 2^17 octets (thorough: 2^18, 2^20),
+/// ASPA provider lists up to the maximum count.
+fn scale_seeds(thorough: bool) -> Vec<Val> {
+    let mut out = Vec::new();
+    let mut seq = [0u8; 20]; for (i, b) in seq.iter_mut().enumerate() { *b = 0xA0 | i as u8 }
+    let mut lens = around_powers(6, 17);
+    if thorough { lens.extend(around_powers(18, 18)); lens.extend(around_powers(20, 20)) }
+    for &n in &lens {
+        out.push(Val::Key { v: 1 + (n % 2) as u8, flags: 1, ski: seq, asn: 0x00AB_CDEF, info: (0..n).map(|i| (i as u8).wrapping_mul(29) ^ 0x6B).collect() });
+    }
+    let mut counts = around_powers(4, 13); counts.extend([16379, 16380]);
+    for n in counts {
+        out.push(Val::Aspa { v: 2, flags: 1, customer: 0x00AB_CDEF, providers: (0..n as u32).map(|i| i.wrapping_mul(0x0101_0101) ^ 0x4000_0001).collect() });
+    }
+    // version 1, code 4: the error report a client reads (and skips) as the first reply to a version 2 query
+    for &n in &lens {
+        out.push(Val::Error { v: 1, code: 4, pdu: vec![], text: (0..n).map(|i| b'a' + (i % 26) as u8).collect() });
+        out.push(Val::Error { v: 1, code: 4, pdu: (0..n).map(|i| i as u8).collect(), text: b"x".to_vec() });
+    }
+    out
+}
+
+/// Truncation points of a long PDU: the first 40 octets, a window (b-8 ..= b+48,
+/// which reaches past the fixed part in front of the variable one) around every
+/// power of two b >= 64 and every multiple of `stride`, and the last 40 octets
+/// up to the complete PDU.
+fn scale_cuts(len: usize, stride: usize) -> Vec<usize> {
+    let mut v: Vec<usize> = (0..=40.min(len)).collect();
+    let mut b = 64usize;
+    while b <= len + 8 { v.extend((b - 8..=b + 48).filter(|k| *k <= len)); b <<= 1 }
+    // ... and around every multiple of `stride` (thresholds and buffer sizes that are not powers of two themselves)
+    let mut b = stride;
+    while b <= len + 8 { v.extend((b - 8..=b + 48).filter(|k| *k <= len)); b += stride }
+    v.extend(len.saturating_sub(40)..=len);
+    v.sort(); v.dedup(); v
+}
+
+/// The reply through which the real client reads a long PDU, and what the
+/// target and the state must be once all of it has arrived.
+fn scale_client_seed(val: &Val, serial_path: bool) -> ClientSeed {
+    const N: u32 = 0xFFFF_FFF0;
+    let state = if serial_path { Some((FA, N - 1)) } else { None };
+    let name = format!("{}.long:{}", if serial_path { "serial" } else { "reset" }, val.render());
+    match val {
+        Val::Error { .. } => {
+            // version negotiation: the long error report is skipped, the reply follows in version 1
+            let item = Val::V4 { v: 1, flags: 1, plen: 8, mlen: 24, addr: 0x0A00_0000, asn: 65000 };
+            let reply = vec![val.clone(), Val::CacheResponse { v: 1, session: FA }, item.clone(), field_eod(1, FA, N, 0)];
+            ClientSeed { name, sweep: true, init_v: 2, state, reply, expect: Some((!serial_path, seen_items(&[item]), field_timing(1, 0), (FA, N))) }
+        }
+        _ => {
+            let v = val.version();
+            let reply = vec![Val::CacheResponse { v, session: FA }, val.clone(), field_eod(v, FA, N, 0)];
+            ClientSeed { name, sweep: true, init_v: v, state, reply, expect: Some((!serial_path, seen_items(&[val.clone()]), field_timing(v, 0), (FA, N))) }
+        }
+    }
+}
+
 
 //------------ history: what happened before on the same thread ----------------
 
@@ -3211,6 +3491,64 @@ fn main() {
     sp.done(true, &format!("{} seeds, sequences of <= 2, every truncation point, 2 close timings", sds.len() + lsds.len()));
 
     lap("fault.truncation");
+    //--- (3b) scale x truncation ---------------------------------------------------
+    let sp = ctx.space("fault.truncation.scale",
+        "long seeds: router keys whose key info has k-1, k, k+1 octets for every power of two k = 2^6..2^17 (thorough: also 2^18, 2^20), ASPA PDUs with k-1, k, k+1 providers for k = 2^4..2^13 and 16379, 16380 (the maximum), error reports whose text / whose embedded PDU has k-1, k, k+1 octets for k = 2^6..2^17 (thorough: 2^18, 2^20); each x stream closed after c octets for every c in 0..=40, in b-8..=b+48 for every power of two b >= 64 and every multiple b of 4096 (thorough: of 1024 for PDUs up to 2^17 octets, of 65536 above) up to the PDU length, and in the last 40 octets up to the complete PDU x 3 schedules (closed with the octets / after quiescence / after reads limited to 1000 octets each) x every reader that consumes the type, and read by the real client inside a reset and a serial reply (the error report as the version error in front of it); expected from the wire grammar: an error within the bound, the complete PDU read back equal; non-trivial = executions with the cut strictly inside the PDU");
+    {
+        let setup = rpki_verif::guard(|| {
+            let seeds = scale_seeds(thorough);
+            let wires: Vec<Vec<u8>> = seeds.iter().map(|v| v.build().wire()).collect();
+            let cl: Vec<[(ClientSeed, Vec<u8>, usize); 2]> = seeds.iter().map(|v| [false, true].map(|serial| {
+                let s = scale_client_seed(v, serial);
+                let at = s.reply.iter().position(|x| x == v).unwrap();
+                let off: usize = s.reply[..at].iter().map(|x| x.build().wire().len()).sum();
+                let stream: Vec<u8> = s.reply.iter().flat_map(|x| x.build().wire()).collect();
+                (s, stream, off)
+            })).collect();
+            (seeds, wires, cl)
+        });
+        match setup {
+            Err(p) => { sp.eval(); ctx.fail("C07.rt.no_panic", "constructing and writing the long seeds (scale_seeds())", p); sp.done(false, "stopped: the seeds cannot be constructed"); }
+            Ok((seeds, wires, cl)) => {
+                // jobs: (seed, Some(reader)) / (seed, None: the client, both paths)
+                // thorough: the finer stride up to 2^17, the seeds above that at every multiple of 2^16
+                let stride_for = |len: usize| if !thorough { 4096usize } else if len <= 140_000 { 1024 } else { 65536 };
+                let mut jobs: Vec<(usize, Option<Rd>)> = Vec::new();
+                for (i, v) in seeds.iter().enumerate() { for rd in readers_for(v.ty()) { jobs.push((i, Some(rd))) } jobs.push((i, None)) }
+                let accs: Vec<Acc> = jobs.par_iter().map(|(i, rd)| {
+                    let mut acc = Acc::default();
+                    let (val, wire) = (&seeds[*i], &wires[*i]);
+                    for k in scale_cuts(wire.len(), stride_for(wire.len())) {
+                        match rd {
+                            // closed with the octets / after quiescence / after reads of at most 1000 octets each
+                            Some(rd) => for script in closes(k).into_iter().chain([vec![Ev::ReadChunk(1000), Ev::Deliver(k), Ev::Settle, Ev::Close, Ev::Settle]]) {
+                                if k != 0 && k != wire.len() { acc.nontrivial += 1 }
+                                let wit = || format!("pdus={} bytes={} readers={} cut={k} of {} sched={}", val.render(), show(wire), rd.render(), wire.len(), render_script(&script));
+                                judge_fault(&mut acc, &[*rd], Some(&[val]), &wire[..k], &script, &wit);
+                            },
+                            None => for (seed, stream, off) in &cl[*i] {
+                                // the complete reply once, and the reply cut at the same places inside the long PDU
+                                for ck in if k == wire.len() { vec![off + k, stream.len()] } else { vec![off + k] } {
+                                    for script in closes(ck) {
+                                        if ck != stream.len() { acc.nontrivial += 1 }
+                                        judge_client(&mut acc, seed, stream, &script, true, true, &format!("cut={ck} of {} ", stream.len()));
+                                    }
+                                }
+                            },
+                        }
+                    }
+                    acc
+                }).collect();
+                report(&ctx, &sp, accs);
+                sp.set("seeds", serde_json::json!(seeds.iter().map(|v| v.render()).collect::<Vec<_>>()));
+                sp.set("cuts_of_the_longest_seed", serde_json::json!(wires.iter().map(|w| w.len()).max().map(|m| scale_cuts(m, stride_for(m)).len()).unwrap_or(0)));
+                sp.sample_str(|| { let i = seeds.iter().position(|v| matches!(v, Val::Key { info, .. } if info.len() == 65537)).unwrap(); format!("{} cut=65568 of {}", seeds[i].render(), wires[i].len()) });
+                sp.done(true, &format!("{} long seeds (variable parts up to 2^{} octets) x every cut in the windows x every reader and the client", seeds.len(), ctx.tier.pick(17, 20)));
+            }
+        }
+    }
+
+    lap("fault.truncation.scale");
     //--- (4) header corruption -------------------------------------------------
     let sp = ctx.space("fault.header",
         "every seed x every single header-field corruption (version := 0,1,2,3,0x7f,0xff; type := 0..12,0xff; octets 2,3 := 0,1,0xff; length := 0,7,8,len-1,len+1,len+4,12,20,24,32,0xffff,0x10000,2^31,2^32-1; each length octet := 0,1,0x80,0xff) x followed by nothing / 8 / 24 further octets x every reader x 2 close timings; expected from the wire grammar; non-trivial = every case (each differs from the written PDU in exactly one field)");
@@ -3284,6 +3622,52 @@ fn main() {
     sp.done(true, "every truncation point and every single header-field corruption of every PDU of every reply");
 
     lap("fault.client");
+    //--- (5b) the header fields that recur within one reply, each on its own ------------
+    let sp = ctx.space("client.fields",
+        "replies read by the real Client::step in which every header field that occurs in several PDUs of one reply is chosen independently: version of the Cache Response (and Cache Reset) x version of the payload PDUs x version of the End of Data (each 0-2) x initial version 0-2 x session of the Cache Response (the state's / another) x session of the End of Data (the state's / the Cache Response's other one / a third) x serial of the End of Data (the state's / +1 / unrelated), on the reset path, the serial path (client created with a state) and the serial path answered by Cache Reset; delivered whole (open and closed) and, where the three versions agree, under every fragmentation into 2 chunks; and TWO steps of ONE client (reset reply, Serial Notify, serial reply; versions 0-2, sessions and serials of the five PDUs that carry one chosen independently), whole and every 2-chunk fragmentation. Oracle: a step that succeeds leaves Client::state() equal to the state of the End of Data PDU it read, the target has the items, action and timing as written, every octet is consumed, the second query is a serial query for the first End of Data's state (judged where the first reply and the notify carry that session); disagreeing versions are an error; a reply as a real server writes it (all occurrences equal) must be accepted; non-trivial = cases in which some occurrence differs from another");
+    {
+        let mut cases: Vec<FCase> = Vec::new();
+        for path in 0u8..3 { for init_v in 0u8..3 { for vc in 0u8..3 { for vp in 0u8..3 { for ve in 0u8..3 {
+            for sc in [FA, FB] { for se in [FA, FB, FC] { for ne in [FN, FN + 1, 7] {
+                cases.push(FCase { path, init_v, vc, vp, ve, sc, se, ne })
+            } } }
+        } } } } }
+        let mut cases2: Vec<F2Case> = Vec::new();
+        for v in 0u8..3 { for sc1 in [FA, FB] { for (sn, nn) in [(FA, FN + 1), (FA, 0x77), (FB, FN + 1), (FB, FN)] {
+            for sc2 in [FA, FB] { for se2 in [FA, FB, FC] { for ne2 in [FN, FN + 1, 5] { cases2.push(F2Case { v, sc1, sn, nn, sc2, se2, ne2 }) } } }
+        } } }
+        enum FJob { One(FCase), Two(F2Case) }
+        let fjobs: Vec<FJob> = cases.iter().map(|c| FJob::One(*c)).chain(cases2.iter().map(|c| FJob::Two(*c))).collect();
+        let accs: Vec<Acc> = fjobs.par_chunks(8).map(|chunk| {
+            let mut acc = Acc::default();
+            for job in chunk {
+                let reply = match job { FJob::One(c) => c.reply(), FJob::Two(c) => c.reply() };
+                let stream = match rpki_verif::guard(|| reply.iter().flat_map(|v| v.build().wire()).collect::<Vec<u8>>()) {
+                    Ok(s) => s,
+                    Err(p) => { acc.fail("C07.rt.no_panic", || format!("reply={}", render_reply(&reply)), format!("constructing or writing panics: {p}")); continue }
+                };
+                let n = stream.len();
+                let mut scripts: Vec<(Vec<Ev>, bool)> = vec![(vec![Ev::Deliver(n), Ev::Settle], false), (closes(n)[0].clone(), true)];
+                let cuts = match job { FJob::One(c) => c.vc == c.vp && c.vp == c.ve, FJob::Two(_) => true };
+                if cuts { for a in 1..n { scripts.push((vec![Ev::Deliver(a), Ev::Settle, Ev::Deliver(n - a), Ev::Settle], false)) } }
+                for (script, closed) in &scripts {
+                    match job {
+                        FJob::One(c) => { if !c.uniform() { acc.nontrivial += 1 } judge_client_fields(&mut acc, c, &reply, &stream, script, *closed) }
+                        FJob::Two(c) => { if !c.uniform() { acc.nontrivial += 1 } judge_client_fields2(&mut acc, c, &reply, &stream, script, *closed) }
+                    }
+                }
+            }
+            acc
+        }).collect();
+        report(&ctx, &sp, accs);
+        sp.set("single_step_replies", serde_json::json!(cases.len()));
+        sp.set("two_step_streams", serde_json::json!(cases2.len()));
+        sp.sample_str(|| { let c = FCase { path: 1, init_v: 1, vc: 1, vp: 1, ve: 1, sc: FA, se: FB, ne: FN + 1 }; format!("serial path, state ({FA:#06x}, {FN}): {}", render_reply(&c.reply())) });
+        sp.sample_str(|| { let c = &cases2[cases2.len() / 2]; format!("two steps: {}", render_reply(&c.reply())) });
+        sp.done(true, &format!("{} single-step replies (3 paths x 3 initial versions x 27 version triples x 6 session pairs x 3 serials) and {} two-step streams, every 2-chunk fragmentation where the versions agree", cases.len(), cases2.len()));
+    }
+
+    lap("client.fields");
     //--- (6) several PDUs queued in one stream, every reader, every order ----------
     let sp = ctx.space("handed_out.queued",
         "every sequence of 3 seed PDUs of equal version (one of every type) queued in ONE stream that is handed to a sequence of three reader calls, every combination of the readers that consume the types, delivered in one piece and with 1-octet reads, then closed, and once with the last octet of the stream missing: every complete PDU must be recovered equal to what was written (a reader call may not take or lose octets of the PDUs queued behind its own); non-trivial = every case");
